@@ -349,3 +349,25 @@ runner_harness!(runner_step_witness, 3, {
     syscommand_runner(&mut world, a, setup_k(1, a), cleanup_k(1));
     assert!(false, "witness: end of the runner step reached");
 });
+
+/// S5 (C09/C02): two levels through the model's real flush: A's run queues a command for the idle system B and flushes
+/// (what `apply_deferred` does at the end of a callback): B runs in-line, completely, before A's run continues; both
+/// callbacks are back afterwards and the tree bookkeeping is reset.
+runner_harness!(runner_nested_inline, 4, {
+    let mut world = mk_world();
+    world.m_apply_table::<(SystemCommand,)>();
+    world.m_drop_table::<bevy::model::cell::LeakAll>();
+    let b = logger(&mut world, 2);
+    let a = spawn_system_command_from(&mut world, SystemCommandCallback::with(move |w: &mut World, cleanup: SystemCommandCleanup| {
+        w.resource_mut::<Log>().push(1); cleanup.run(w);
+        w.commands().queue(b);
+        w.flush();
+        w.resource_mut::<Log>().push(9);
+    }));
+    syscommand_runner(&mut world, a, setup_k(1, a), cleanup_k(1));
+    assert!(log_is(&world, &[11, 1, 21, 2, 9]), "C09/C02: the nested command runs in-line, once, before the queuing run continues");
+    assert!(has_callback(&world, a) && has_callback(&world, b) && counter(&world) == 0 && buffered_len(&world) == 0, "C11: quiescent afterwards");
+    assert!(!lost_system_path_taken());
+    kani::cover!(true, "end of harness reached");
+    std::mem::forget(world);
+});
